@@ -64,7 +64,15 @@ func (r *Report) Check(ok bool, key, pos, okDetail, badDetail string) {
 	}
 }
 func (r *Report) InfraFail(format string, a ...any) {
-	r.Infra = append(r.Infra, r.cur+": "+fmt.Sprintf(format, a...))
+	msg := fmt.Sprintf(format, a...)
+	// an anchor (a function, method or type a rule is written about) that is gone from the tree is a
+	// statement about the tree, not a failure of the machinery: the obligation is undecided, and the
+	// check fails with a VIOLATION line that names it
+	if strings.HasPrefix(msg, "anchor:") {
+		r.Undec("anchor@"+strings.TrimPrefix(msg, "anchor: "), "-", msg+": the construct this rule is about is no longer in the tree (renamed beyond recognition, removed or merged); the rule cannot be decided")
+		return
+	}
+	r.Infra = append(r.Infra, r.cur+": "+msg)
 }
 func (r *Report) Count(what string, n int) {
 	if r.Analysed == nil {
@@ -232,7 +240,7 @@ func finish(def PropertyDef, rep *Report, c *Ctx, tier string, seed int, wall fl
 		analysed[k] = v
 	}
 	cov := map[string]any{
-		"explanation":         def.Explanation,
+		"explanation":         fullExplanation(def),
 		"obligations":         len(rep.Obs),
 		"discharged":          discharged,
 		"evaluations":         len(rep.Obs),
@@ -283,4 +291,19 @@ func finish(def PropertyDef, rep *Report, c *Ctx, tier string, seed int, wall fl
 	}
 	fmt.Printf("OK property=%s tier=%s obligations=%d discharged=%d known=%d wall=%.1fs\n", def.ID, tier, len(rep.Obs), discharged, len(kn), wall)
 	return 0
+}
+
+// fullExplanation: the property's prose, followed by the rules it does not mention by name (the later
+// rounds added many; each is described under coverage.rules).
+func fullExplanation(def PropertyDef) string {
+	var more []string
+	for _, rd := range def.Rules {
+		if !strings.Contains(def.Explanation, rd.ID) {
+			more = append(more, rd.ID)
+		}
+	}
+	if len(more) == 0 {
+		return def.Explanation
+	}
+	return def.Explanation + " Further necessary conditions decided, each stated under coverage.rules: " + strings.Join(more, ", ") + "."
 }
